@@ -21,6 +21,15 @@ package state
 //@ extern func github.com/Masterminds/semver/v3.(*Version).LessThan
 //@   requires v != nil && o != nil
 //@   ensures result == verLess(*v, *o)
+//@ extern func github.com/Masterminds/semver/v3.(*Version).GreaterThan
+//@   requires v != nil && o != nil
+//@   ensures result == verLess(*o, *v)
+//@ extern func github.com/Masterminds/semver/v3.(*Version).LessThanEqual
+//@   requires v != nil && o != nil
+//@   ensures result == !verLess(*o, *v)
+//@ extern func github.com/Masterminds/semver/v3.(*Version).GreaterThanEqual
+//@   requires v != nil && o != nil
+//@   ensures result == !verLess(*v, *o)
 // core.ParseBlockVersion is under (trusted) contract in package core: blockVer / verParses are
 // that package's spec functions.
 //@ ghost func poseidon3(a felt.Felt, b felt.Felt, c felt.Felt) felt.Felt
